@@ -1,5 +1,5 @@
 """C20 - loosening RP policy never rejects; credential input form is irrelevant."""
-import json, copy
+import zlib, json, copy
 from harness import fw, impl, authsim, authcat, authrun, regsim, regcat, regrun, allcat
 
 TRUSTED = [
@@ -128,8 +128,8 @@ def run(tier, seed):
     chk.sample({"pair": "require_user_verification True -> False", "rule": "accepted under strict => equal result under looser"})
     # ---------- registration ----------
     for label, pol, reg, form, exp, s in allcat.reg_cases(rng, quick):
-        if quick and rng.random() < 0.5 and exp == "reject":
-            continue
+        if quick and exp == "reject" and not label.startswith(("policy-lattice", "baseline")) and (zlib.crc32(label.encode()) % 2):
+            continue            # (a fixed half of the single-fault entries in the quick tier - chosen by label, not by the random stream)
         d = reg.as_dict()
         d0 = copy.deepcopy(d)
         base = vr(pol, d)
